@@ -194,6 +194,24 @@ func runC06(c *fw.Ctx) {
 		model := sc.model()
 		cl, client := sc.setup(nil)
 		opid := fmt.Sprintf("scan-%d-%d", c.Batch, i)
+		// in some scans the response to one continuation request is lost: the server
+		// processes the request (the region scanner advances), then the connection
+		// dies. The scan may fail, but if it goes on nothing may be missing.
+		lostAt, lostFired := 0, int32(0)
+		if r.Intn(8) == 0 {
+			lostAt = 1 + r.Intn(4)
+			var n int32
+			cl.OnRequest = func(req *sim.Request) *sim.Reply {
+				if req.Scan == nil || req.Scan.ScannerId == nil || req.Scan.GetCloseScanner() || req.Scan.GetRenew() || cl.ScanOpID(req) != opid {
+					return nil
+				}
+				if int(atomic.AddInt32(&n, 1)) == lostAt {
+					atomic.StoreInt32(&lostFired, 1)
+					return &sim.Reply{DefaultThenKill: true}
+				}
+				return nil
+			}
+		}
 		ctx, cancel := context.WithTimeout(context.Background(), 30*time.Second)
 		var got []*hrpc.Result
 		var err error
@@ -212,13 +230,22 @@ func runC06(c *fw.Ctx) {
 		switch {
 		case !done:
 			c.Violate(id, "scan:stuck", "scan did not finish in 40s on a fault-free cluster: "+sc.sig(), sc)
+		case err != nil && atomic.LoadInt32(&lostFired) == 1:
+			c.Count("scans_failed_after_a_lost_response", 1)
 		case err != nil:
 			c.Violate(id, "scan:error", fmt.Sprintf("scan failed on a fault-free cluster: %v: %s", err, sc.sig()), sc)
 		default:
 			if f, d := compareScan(got, model, sc.Partials, false); f != "" {
+				if atomic.LoadInt32(&lostFired) == 1 {
+					f = "scan:rows-skipped-after-lost-response"
+					d = fmt.Sprintf("the response to continuation request %d was lost after the server had processed it; the scan went on without error: %s", lostAt, d)
+				}
 				c.Violate(id, f, d+" :: "+sc.sig(), sc)
 			}
 			c.Count("rows_returned", int64(len(model)))
+		}
+		if atomic.LoadInt32(&lostFired) == 1 {
+			c.Count("scans_with_a_lost_response", 1)
 		}
 		hops := -1
 		for _, e := range cl.Log.Snapshot() {
